@@ -19,12 +19,14 @@
   * third stage: `family_roundtrip_timestamp_naive` / `_zoned` (formats that carry the instant only as
     a timestamp: `%s`, `%s %z`, `%s%:z`, `%z %s`), composed with C14's `datetime_complete_timestamp` /
     `to_datetime_complete_timestamp`; they are part of `family_roundtrip`.
-  Not proved (compared with the crate and checked by the round-trip oracle only): `%+` and the other
-  members listed in the docstring of `family_roundtrip_partial`.
+  * fourth stage: `item_inverts_rfc3339`, `family_roundtrip_rfc3339_item` (the format `%+`), on C09's
+    lemmas about `parse_rfc3339_relaxed` and C20's `write_rfc3339_autoSi_debug`.
+  Not proved (compared with the crate and checked by the round-trip oracle only): the members listed in
+  the docstring of `family_roundtrip_partial`.
   Concrete parser runs cannot be closed by `decide`: `Scan.number` is defined by mutual (well-founded)
   recursion, which the kernel does not unfold; the examples go through the theorems instead.
 -/
-import Chrono.Proofs.RoundTripStampL
+import Chrono.Proofs.RoundTripRfc3339L
 import Chrono.Spec.UnambiguousSpec
 import Chrono.Extracted.ParseTable
 
@@ -281,8 +283,10 @@ record (`hset`), then `parse_from_str` of the formatted text is the resolution o
 Members of the family NOT covered by `family_roundtrip`, for which only this reduction is proved (they
 are compared with the crate, checked by the round-trip oracle and by the validation of the
 specification `pf.sp`):
-* `%+` (the RFC 3339 item: its reader is `parse_rfc3339_relaxed`, for which there is no item lemma;
-  C10's round trip is about the strict `parse_from_rfc3339`);
+* `%+` (the RFC 3339 item) next to other items in one format string: `family_roundtrip_rfc3339_item`
+  covers the format strings that consist of `%+` alone (its reader `parse_rfc3339_relaxed` is then
+  started on a fresh record and must consume the whole text); the specification keeps the item out of
+  `Spec.Unambiguous` (`invertible`);
 * white-space items of the *format* that contain non-ASCII white space, a fraction item directly after
   a white-space item, the `Z`-printing offset items (no specifier produces them);
 * zone-aware values whose local reading leaves the supported range;
@@ -547,6 +551,55 @@ theorem family_roundtrip (fmt : List Nat) (v : Value) (text : List Nat) (v' : Va
     · exact family_roundtrip_zoned fmt z Y o hvd t htv hl hzo text hp hU hform.1.1 hform.1.2 hform.2 hsafe hE hfmt v' hv'
     · exact family_roundtrip_timestamp_zoned fmt z hu Y o hvd t htv hl hzo text hp hU hso hsafe hE hfmt v' hv'
 
+/-! ## the RFC 3339 item `%+`
+
+`%+` prints `write_rfc3339(wall clock, offset, AutoSi, use_z = false)` and is read by
+`parse_rfc3339_relaxed`, the reader of `impl FromStr for DateTime<FixedOffset>`.  Domain (that of C09's
+`roundtrip_DateTime_FixedOffset`): a well-formed value (`ZInv`), a leap second only on a second :59
+(`TStrict`), a whole-minute offset (`WholeMinute`: the writer rounds to the minute), a wall clock inside
+`NaiveDate`'s range (`naive_local z = .ok l`); every year of the supported range, negative and 5–6 digit
+ones included. -/
+
+/-- **item lemma for `%+`**: what the formatter writes for the item is the `Debug` text of the wall clock
+(`T` separator, shortest of 0/3/6/9 fraction digits, leap second as `:60`) followed by `+hh:mm`; the
+item's reader, started on a fresh record, consumes exactly that text and stores year, month, day, hour,
+minute, second, nanosecond and offset — fields that `to_datetime` resolves to the value itself -/
+theorem item_inverts_rfc3339 (z : Zoned) (hz : Chrono.Spec.ZInv z) (hm : Chrono.Spec.Text.WholeMinute z.off)
+    (hs : Chrono.Spec.TStrict z.utc.time) (l : NaiveDT) (hl : Zoned.naive_local z = .ok l) (name : List Nat) :
+    Format.format_item (some l.date) (some l.time) (some (name, z.off)) (.fixed .rfc3339) =
+      Format.wok (Chrono.Spec.Text.naiveText 84 l ++ Chrono.Spec.Text.offsetText z.off) ∧
+    ∃ p, Parse.parse_internal Parsed.new
+        (Chrono.Spec.Text.naiveText 84 l ++ Chrono.Spec.Text.offsetText z.off) [.fixed .rfc3339] = .ok (p, []) ∧
+      Parsed.to_datetime p = .ok (.ok z) := by
+  obtain ⟨_, hw⟩ := rfc3339_item_text z hz hm hs l hl
+  obtain ⟨p, hp, hres⟩ := rfc3339_item_reads z hz hm hs l hl
+  refine ⟨?_, p, ?_, hres⟩
+  · cases l with
+    | mk d t => exact hw
+  · simp only [Parse.parse_internal, hp]
+
+/-- **`family_roundtrip_rfc3339_item`**: for every format string that consists of the RFC 3339 item
+(`%+`), `DateTime::<FixedOffset>::parse_from_str(&z.format(fmt).to_string(), fmt) == Ok(z)` — formatting
+succeeds (a conclusion, not a hypothesis) and nothing is lost: the fraction is printed in full.
+Not covered: `%+` next to other items in one format string (its reader is then started on a non-empty
+record and followed by further text), offsets with seconds and values whose wall clock leaves the range
+of `NaiveDate` (findings F20–F25 of C09/C20: these do not read back). -/
+theorem family_roundtrip_rfc3339_item (fmt : List Nat) (hfmt : Strftime.items fmt = [.fixed .rfc3339])
+    (z : Zoned) (hz : Chrono.Spec.ZInv z) (hm : Chrono.Spec.Text.WholeMinute z.off)
+    (hs : Chrono.Spec.TStrict z.utc.time) (l : NaiveDT) (hl : Zoned.naive_local z = .ok l) :
+    format (.zoned z) fmt = Format.wok (Chrono.Spec.Text.naiveText 84 l ++ Chrono.Spec.Text.offsetText z.off) ∧
+    parse_from_str .zoned (Chrono.Spec.Text.naiveText 84 l ++ Chrono.Spec.Text.offsetText z.off) fmt =
+      .ok (.ok (.zoned z)) ∧
+    roundtrip (.zoned z) fmt =
+      some (Chrono.Spec.Text.naiveText 84 l ++ Chrono.Spec.Text.offsetText z.off, .ok (.ok (.zoned z))) := by
+  obtain ⟨h1, p, h2, h3⟩ := family_rfc3339 (Strftime.items fmt) hfmt z hz hm hs l hl
+  have hf : format (.zoned z) fmt =
+      Format.wok (Chrono.Spec.Text.naiveText 84 l ++ Chrono.Spec.Text.offsetText z.off) := h1
+  have hp := parse_from_str_of .zoned fmt _ p _ h2 h3
+  refine ⟨hf, hp, ?_⟩
+  simp only [roundtrip, hf, Format.wok]
+  exact congrArg (fun r => some (_, r)) hp
+
 /-! ## items outside the family -/
 
 /-- `%#z` is read-only: the formatter refuses it for every value -/
@@ -709,6 +762,24 @@ example (z : Zoned) (hu : Chrono.Spec.NDTInv z.utc) (Y : Int) (o : Nat) (hvd : V
       rcases hm with rfl | rfl | rfl <;> simp [itemFracDigits]
   · rw [truncate_timestamp_zoned _ _ (by rw [hi]; decide), hi, hc]
     simp only [if_true, hro, hnl]
+
+/-- `%+` on 2024-02-29T12:00:00.5+01:00: the format string `%+` is the single RFC 3339 item, the value
+meets the hypotheses of `family_roundtrip_rfc3339_item`, and the text is `2024-02-29T12:00:00.500+01:00` -/
+example :
+    Strftime.items [37, 43] = [.fixed .rfc3339] ∧
+    roundtrip (.zoned ⟨⟨dateOfYo 2024 60, ⟨39600, 500000000⟩⟩, 3600⟩) [37, 43] =
+      some (Chrono.asciiBytes "2024-02-29T12:00:00.500+01:00",
+        .ok (.ok (.zoned ⟨⟨dateOfYo 2024 60, ⟨39600, 500000000⟩⟩, 3600⟩))) := by
+  have hi : Strftime.items [37, 43] = [.fixed .rfc3339] := by decide +kernel
+  refine ⟨hi, ?_⟩
+  have h := (family_roundtrip_rfc3339_item [37, 43] hi ⟨⟨dateOfYo 2024 60, ⟨39600, 500000000⟩⟩, 3600⟩
+    (by unfold Chrono.Spec.ZInv Chrono.Spec.NDTInv; decide +kernel) (by unfold Chrono.Spec.Text.WholeMinute; decide)
+    (by decide) ⟨dateOfYo 2024 60, ⟨43200, 500000000⟩⟩ (by decide +kernel)).2.2
+  rw [h]
+  have ht : Chrono.Spec.Text.naiveText 84 ⟨dateOfYo 2024 60, ⟨43200, 500000000⟩⟩ ++
+      Chrono.Spec.Text.offsetText 3600 = Chrono.asciiBytes "2024-02-29T12:00:00.500+01:00" := by
+    decide +kernel
+  rw [ht]
 
 /-- the same for every valid time of day with `%H:%M:%S%.f` (leap second `60` and every fraction) -/
 example (t : Time) (htv : Chrono.Spec.TValid t) (hleap : 1000000000 ≤ t.frac → t.secs % 60 = 59) (text : List Nat)
